@@ -10,7 +10,7 @@
     so a semantic change of a translated Go function breaks the lemma of that function (or of a
     caller) on that run, for ALL inputs, independently of what the sampled correspondence run
     happens to hit. Nothing admitted; no axioms in the integer/bit/byte groups (can, descriptor,
-    wire, netlink, scan, dbcid, dbcvalidate, lookup, lintnames, frametext); the floating-point groups (physical, apidecide) are on Flocq and depend
+    wire, netlink, scan, dbcid, dbcvalidate, lookup, lintnames, frametext); the floating-point groups (physical, apidecide, render) are on Flocq and depend
     on the standard-library axioms its lemmas use, and on nothing else (checked by
     checks/translate_tie.py against vlib.AXIOM_WHITELIST).
 
@@ -1515,3 +1515,173 @@ Proof.
     unfold Translated.set_Frame_Length, Translated.set_Frame_ID, Translated.set_Frame_IsExtended, Translated.set_Frame_Data. ft_proj.
     rewrite Hq, ft_copy_data. reflexivity.
 Qed.
+
+(* @group render requires can descriptor physical lookup *)
+(** ** the renderings: pkg/canjson/encode.go and pkg/cantext/encode.go (models: Gen/Render.v, Gen/RenderNum.v,
+       bytes of a segment list: Gen/RenderSpec.v [render]) *)
+From CanVerif Require Import Translate.GoSemText Gen.RenderNum Gen.Render Gen.RenderSpec.
+
+Lemma T_uintToJSON_eq u : Translated.uintToJSON u = uint_to_json u.
+Proof. reflexivity. Qed.
+Lemma T_intToJSON_eq i : Translated.intToJSON i = int_to_json i.
+Proof. reflexivity. Qed.
+Lemma T_floatToJSON_eq rF f : Translated.floatToJSON rF f = render_segment rF rF (fun b => b) rF (FloatF (bits_of_f64 f)).
+Proof. reflexivity. Qed.
+
+(** the descriptor as the renderers read it: [sig_of_p] (integer + float fields) plus Name, Unit,
+    IsMultiplexer and the value descriptions of [sig_of_l] *)
+Definition sig_of_r (s : signal) : Translated.Signal :=
+  Translated.set_Signal_Unit
+    (Translated.set_Signal_ValueDescriptions
+       (Translated.set_Signal_IsMultiplexer
+          (Translated.set_Signal_Name (sig_of_p s) (s_name s)) (s_multiplexer s))
+       (map vd_of (s_value_descriptions s)))
+    (s_unit s).
+
+(** callees on [sig_of_r]: they read only fields that [sig_of_p] / [sig_of_l] set to the same values *)
+Lemma T_Signal_UnmarshalUnsigned_eq_r s d :
+  valid_data d -> Translated.Signal_UnmarshalUnsigned (sig_of_r s) d = unmarshal_unsigned s d.
+Proof. exact (T_Signal_UnmarshalUnsigned_eq s d). Qed.
+Lemma T_Signal_UnmarshalSigned_eq_r s d :
+  valid_data d -> in_u 8 (s_start s) -> Translated.Signal_UnmarshalSigned (sig_of_r s) d = unmarshal_signed s d.
+Proof. exact (T_Signal_UnmarshalSigned_eq s d). Qed.
+Lemma T_Signal_UnmarshalBool_eq_r s d : Translated.Signal_UnmarshalBool (sig_of_r s) d = unmarshal_bool s d.
+Proof. exact (T_Signal_UnmarshalBool_eq s d). Qed.
+Lemma T_Signal_ToPhysical_eq_r s value : Translated.Signal_ToPhysical (sig_of_r s) value = to_physical s value.
+Proof. exact (T_Signal_ToPhysical_eq s value). Qed.
+Lemma T_Signal_UnmarshalPhysical_eq_r s d :
+  valid_data d -> in_u 8 (s_start s) -> Translated.Signal_UnmarshalPhysical (sig_of_r s) d = unmarshal_physical s d.
+Proof. exact (T_Signal_UnmarshalPhysical_eq s d). Qed.
+Lemma T_Signal_ValueDescription_eq_r s value :
+  Translated.Signal_ValueDescription (sig_of_r s) value = described (Descriptor.Signal.value_description (s_value_descriptions s) value).
+Proof. exact (T_Signal_ValueDescription_eq s value). Qed.
+Lemma T_Signal_UnmarshalValueDescription_eq_r s d :
+  valid_data d -> in_u 8 (s_start s) ->
+  Translated.Signal_UnmarshalValueDescription (sig_of_r s) d = described (unmarshal_value_description s d).
+Proof. exact (T_Signal_UnmarshalValueDescription_eq s d). Qed.
+
+(** *** pkg/canjson: signal.set* = json_signal_value.  [rF] = strconv.FormatFloat(., 'f', -1, 64) as a function of
+    the bit pattern: ANY function (oracle).  The struct fields the call does not assign keep the value
+    they have in the receiver [s0] (Marshal passes a fresh &signal{}: all empty). *)
+Definition jsig (rF : Z -> go_string) (s0 : Translated.signal) (s : signal) (v : bytes * f64 * option bytes) : Translated.signal :=
+  let '(raw, phys, desc) := v in
+  {| Translated.signal_Raw := raw;
+     Translated.signal_Physical := rF (bits_of_f64 phys);
+     Translated.signal_Unit := s_unit s;
+     Translated.signal_Description := match desc with Some t => t | None => Translated.signal_Description s0 end |}.
+
+Lemma T_signal_setUnsignedValue_eq rF s0 v s : in_u 64 v ->
+  Translated.signal_setUnsignedValue rF s0 v (sig_of_r s) =
+  jsig rF s0 s (uint_to_json v, to_physical s (f64_of_Z v), Descriptor.Signal.value_description (s_value_descriptions s) (i64_of_u64 v)).
+Proof.
+  intros Hv. unfold Translated.signal_setUnsignedValue, jsig.
+  rewrite T_Signal_ValueDescription_eq_r, T_Signal_ToPhysical_eq_r, wrap_s64_u by exact Hv.
+  destruct (Descriptor.Signal.value_description _ _); reflexivity.
+Qed.
+
+Lemma T_signal_setSignedValue_eq rF s0 v s :
+  Translated.signal_setSignedValue rF s0 v (sig_of_r s) =
+  jsig rF s0 s (int_to_json v, to_physical s (f64_of_Z v), Descriptor.Signal.value_description (s_value_descriptions s) v).
+Proof.
+  unfold Translated.signal_setSignedValue, jsig.
+  rewrite T_Signal_ValueDescription_eq_r, T_Signal_ToPhysical_eq_r.
+  destruct (Descriptor.Signal.value_description _ _); reflexivity.
+Qed.
+
+Lemma f64_of_Z_one : go_f64_const 0x3ff0000000000000 = f64_of_Z 1. Proof. exact go_f64_const_one. Qed.
+Lemma f64_of_Z_zero : go_f64_const 0 = f64_of_Z 0. Proof. apply go_f64_eq. vm_compute. reflexivity. Qed.
+
+Lemma T_signal_setBoolValue_eq rF s0 (b : bool) s :
+  Translated.signal_setBoolValue rF s0 b (sig_of_r s) =
+  jsig rF s0 s ((if b then t_one else t_zero), to_physical s (f64_of_Z (if b then 1 else 0)),
+                Descriptor.Signal.value_description (s_value_descriptions s) (if b then 1 else 0)).
+Proof.
+  unfold Translated.signal_setBoolValue, jsig. destruct b;
+    rewrite T_Signal_ValueDescription_eq_r, T_Signal_ToPhysical_eq_r, ?f64_of_Z_one, ?f64_of_Z_zero;
+    destruct (Descriptor.Signal.value_description _ _); reflexivity.
+Qed.
+
+Lemma unmarshal_unsigned_in_u64 s d : in_u 8 (s_start s) -> in_u 64 (unmarshal_unsigned s d).
+Proof.
+  intros Hs. unfold unmarshal_unsigned. destruct (s_big_endian s);
+    [apply ubits_be_in_u64 | apply ubits_le_in_u64; unfold in_u in Hs; lia].
+Qed.
+
+(** signal.set (encode.go:48): the three-way switch; [f.Data] is the payload *)
+Lemma T_signal_set_eq rF s0 s f : valid_data (Translated.Frame_Data f) -> in_u 8 (s_start s) ->
+  Translated.signal_set rF s0 (sig_of_r s) f = jsig rF s0 s (json_signal_value uint_to_json s (Translated.Frame_Data f)).
+Proof.
+  intros Hd Hs. unfold Translated.signal_set, json_signal_value. cbv zeta.
+  change (Translated.Signal_Length (sig_of_r s)) with (s_length s).
+  change (Translated.Signal_IsSigned (sig_of_r s)) with (s_signed s).
+  destruct (s_length s =? 1).
+  - rewrite T_signal_setBoolValue_eq, T_Signal_UnmarshalBool_eq_r.
+    destruct (unmarshal_bool s _); reflexivity.
+  - destruct (s_signed s).
+    + rewrite T_signal_setSignedValue_eq, T_Signal_UnmarshalSigned_eq_r by assumption. reflexivity.
+    + rewrite T_Signal_UnmarshalUnsigned_eq_r by assumption.
+      rewrite T_signal_setUnsignedValue_eq; [reflexivity |].
+      apply unmarshal_unsigned_in_u64; assumption.
+Qed.
+
+(** *** pkg/cantext: Append* = the caller's buffer followed by the bytes of the hand model's segment list
+    ([RenderSpec.render]).  [rG] = strconv.AppendFloat(., 'g', -1, 64) as a function of the bit pattern: ANY
+    function (oracle), the same one on both sides; [rF], [rJ], [rD] do not occur in these renderings. *)
+Section RenderText.
+Variables (rG rF : Z -> bytes) (rJ : bytes -> bytes) (rD : Z -> bytes).
+Notation rnd := (render rG rF rJ rD).
+
+Lemma T_AppendSignalCompact_eq buf s d : valid_data d -> in_u 8 (s_start s) ->
+  Translated.AppendSignalCompact rG buf (sig_of_r s) d = buf ++ rnd (text_compact_signal s d).
+Proof.
+  intros Hd Hs. unfold Translated.AppendSignalCompact, text_compact_signal, physical_bits, go_append.
+  rewrite T_Signal_UnmarshalValueDescription_eq_r, T_Signal_UnmarshalBool_eq_r, T_Signal_UnmarshalPhysical_eq_r by assumption.
+  change (Translated.Signal_Length (sig_of_r s)) with (s_length s).
+  change (Translated.Signal_IsSigned (sig_of_r s)) with (s_signed s).
+  change (Translated.Signal_Name (sig_of_r s)) with (s_name s).
+  change (Translated.Signal_Unit (sig_of_r s)) with (s_unit s).
+  destruct (unmarshal_value_description s d); cbn [described];
+    [| destruct (s_length s =? 1); [| destruct (s_signed s)]];
+    cbn [render flat_map render_segment app]; rewrite ?app_nil_r, <- ?app_assoc; reflexivity.
+Qed.
+
+Lemma T_AppendSignal_eq buf s d : valid_data d -> in_u 8 (s_start s) ->
+  Translated.AppendSignal rG buf (sig_of_r s) d = buf ++ rnd (text_signal s d).
+Proof.
+  intros Hd Hs. unfold Translated.AppendSignal, text_signal, vd_suffix, physical_bits, go_append.
+  rewrite T_Signal_UnmarshalValueDescription_eq_r, T_Signal_UnmarshalBool_eq_r, T_Signal_UnmarshalPhysical_eq_r,
+    T_Signal_UnmarshalSigned_eq_r, T_Signal_UnmarshalUnsigned_eq_r by assumption.
+  change (Translated.Signal_Length (sig_of_r s)) with (s_length s).
+  change (Translated.Signal_IsSigned (sig_of_r s)) with (s_signed s).
+  change (Translated.Signal_Name (sig_of_r s)) with (s_name s).
+  change (Translated.Signal_Unit (sig_of_r s)) with (s_unit s).
+  change (wrap_u 64 (unmarshal_signed s d)) with (u64 (unmarshal_signed s d)).
+  destruct (s_length s =? 1); [| destruct (s_signed s)];
+    destruct (unmarshal_value_description s d); cbn [described];
+    cbn [render flat_map render_segment app]; rewrite ?app_nil_r, <- ?app_assoc; reflexivity.
+Qed.
+
+(** the message descriptor as AppendID / AppendSender read it *)
+Definition msg_of_r (m : message) : Translated.Message :=
+  Translated.set_Message_SenderNode (msg_of m) (msg_sender m).
+
+Lemma T_AppendID_eq buf m : in_u 32 (msg_id m) ->
+  Translated.AppendID buf (msg_of_r m) = buf ++ rnd (append_id m).
+Proof.
+  intros Hid. unfold Translated.AppendID, append_id, go_append.
+  change (Translated.Message_ID (msg_of_r m)) with (msg_id m).
+  rewrite (wrap_u_small 64) by (eapply in_u_mono; [| exact Hid]; lia).
+  cbn [render flat_map render_segment app]. rewrite ?app_nil_r, <- ?app_assoc. reflexivity.
+Qed.
+
+Lemma T_appendAttributeString_eq buf name v :
+  Translated.appendAttributeString buf name v = buf ++ rnd (append_attr name (Lit v)).
+Proof.
+  unfold Translated.appendAttributeString, append_attr, go_append.
+  cbn [render flat_map render_segment app]. rewrite ?app_nil_r, <- ?app_assoc. reflexivity.
+Qed.
+
+Lemma T_AppendSender_eq buf m :
+  Translated.AppendSender buf (msg_of_r m) = buf ++ rnd (append_attr t_sender (Lit (msg_sender m))).
+Proof. unfold Translated.AppendSender. rewrite T_appendAttributeString_eq. reflexivity. Qed.
+End RenderText.
